@@ -120,6 +120,9 @@ def tick : SM K V Q Unit := fun s =>
 @[inline] def leak (o : Obj K V) : SM K V Q Unit :=
   modS fun s => { s with w := { s.w with leaked := s.w.leaked ++ [o] } }
 
+def St.setUnw (s : St K V Q) (b : Bool) : St K V Q :=
+  { s with w := { s.w with unwinding := b } }
+
 /-- Run `body`; if it unwinds, run `cleanup` (drops of the locals still owned)
     with injection suppressed, then continue unwinding.  A panic inside the
     clean-up would abort the process: modelled as `ub` (theorems exclude it). -/
@@ -128,9 +131,8 @@ def unwindWith (cleanup : SM K V Q Unit) (body : SM K V Q α) : SM K V Q α := f
   | .ok a s' => .ok a s'
   | .ub => .ub
   | .panic c s' =>
-    let was := s'.w.unwinding
-    match cleanup { s' with w := { s'.w with unwinding := true } } with
-    | .ok _ s'' => .panic c { s'' with w := { s''.w with unwinding := was } }
+    match cleanup (s'.setUnw true) with
+    | .ok _ s'' => .panic c (s''.setUnw s'.w.unwinding)
     | .panic _ _ => .ub
     | .ub => .ub
 
